@@ -274,11 +274,20 @@ theorem local_to_global_spec (t : PTree) (h : localOk t = true) : globalOk t = t
     simp only [localNode, Bool.and_eq_true] at hna
     exact hna.2
 
-/-! ### The specification of line and column -/
+/-! ### The specification of line and column
 
-/-- `lineColAt` is what the property says: scanning forward, a newline byte starts a new line at
-    column 1, every other byte (NUL, CR, tab, a byte of a multi-byte rune, a backslash) advances the
-    column by one. -/
+  What "line and column agree with the byte offset" means (`lineColAt`, run against every position
+  of every parsed tree by the op `speclinecol`): offset 0 is 1:1; stepping over a newline byte
+  (0x0A) leads to the next line, column 1; stepping over ANY other byte leads to the same line, next
+  column — a NUL byte, a CR, a tab, each byte of a byte order mark or of a multi-byte character, an
+  invalid UTF-8 byte, a backslash: column = 1 + number of bytes since the last newline.
+  NUL bytes are therefore counted like every other byte (so does the lexer: `p.col++`).  The open
+  finding K4 is not about this specification: it concerns positions that the parser *derives* from
+  a token's length when NULs or escaped newlines lie inside that token; only such a position (same
+  blank-delimited run, after the dropped bytes) is exempt from the check, every other position of
+  an input with NUL bytes is checked. -/
+
+/-- the defining equations -/
 theorem lineColAt_step (b : UInt8) (rest : List UInt8) (off line col : Nat) :
     lineColFrom line col (b :: rest) (off + 1) =
       (if b = 10 then lineColFrom (line + 1) 1 rest off else lineColFrom line (col + 1) rest off) ∧
@@ -286,6 +295,15 @@ theorem lineColAt_step (b : UInt8) (rest : List UInt8) (off line col : Nat) :
   constructor
   · rfl
   · rfl
+
+/-- The specification, offset by offset: the start of the input is 1:1, and the position after the
+    byte at `off` is the next line's column 1 if that byte is a newline, the next column otherwise. -/
+theorem lineColAt_succ (src : List UInt8) (off : Nat) (b : UInt8) (h : src[off]? = some b) :
+    lineColAt src 0 = (1, 1) ∧
+    lineColAt src (off + 1) =
+      (if b = 10 then ((lineColAt src off).1 + 1, 1) else ((lineColAt src off).1, (lineColAt src off).2 + 1)) := by
+  refine ⟨by cases src <;> rfl, ?_⟩
+  exact lineColFrom_succ src off 1 1 b h
 
 /-! ### Non-vacuity -/
 
